@@ -17,8 +17,9 @@ C19 — executable model of the Usage machinery.
   cluster/webhookconfigurations/usage.yaml (atomic read of the index + optional
   annotate).
 * `Action`/`Sys.exec`: the small-step system: user create/delete of Usages and
-  resources, Kubernetes GC of one object, start of a reconcile, one API call of a
-  reconcile under a fault outcome. Every interleaving and fault plan is a
+  resources, Kubernetes GC of one object, the XR composer re-applying a composed
+  Usage (`RespectOwnerRefs`), start of a reconcile, one API call of a reconcile
+  under a fault outcome. Every interleaving and fault plan is a
   `List Action`.
 -/
 namespace Xp.C19
@@ -475,6 +476,28 @@ def Store.deleteUsage (s : Store) (name : String) : Store × Bool :=
       (if x.deleting then (s, true) else ((s.putU { x with deleting := true, rv := s.nextRv }).bump, true))
     else (s.dropU name, true)
 
+/-- The XR composer re-applies a composed Usage it controls (composition_pt.go:
+`Apply(cd, MustBeControllableBy(xr), usage.RespectOwnerRefs())` with the patching applicator).
+The desired object carries only the XR's controller reference; `RespectOwnerRefs` replaces the
+desired owner references by the current ones whenever the current Usage has any, so the
+reference the Usage controller added is not lost. `none` = nothing to apply,
+`some false` = not controllable by that XR. -/
+def controlledByOther (os : List OwnerRef) (uid : Nat) : Bool :=
+  match ctrlOf os with
+  | some c => c != uid
+  | none => false
+
+def Store.reapplyUsage (s : Store) (name ctrl : String) : Store × Option Bool :=
+  match s.getU name with
+  | none => (s, none)
+  | some x =>
+    match s.getR "ex.org" "XR" ctrl with
+    | none => (s, none)
+    | some xr =>
+      if controlledByOther x.owners xr.uid then (s, some false)
+      else if x.owners ≠ [] then (s, some true)
+      else ((s.putU { x with owners := [⟨xr.uid, true, "XR", ctrl⟩], rv := s.nextRv }).bump, some true)
+
 inductive Verdict where
   | allowed | denied | errored
   deriving DecidableEq, Repr, Inhabited
@@ -551,6 +574,7 @@ inductive Action where
   | dr (g kind name policy : String) (listOk patchOk : Bool) (stale : Option Nat)
   | gcU (name : String)
   | gcR (g kind name : String)
+  | xa (name ctrl : String)
   | start (u : String)
   | step (u : String) (o : Outcome) (stale : Option Nat)
   deriving Repr, Inhabited
@@ -561,6 +585,7 @@ inductive Report where
   | deletedU (found : Bool)
   | del (r : DelResult)
   | gc (r : GcResult)
+  | reapplied (r : Option Bool)
   | started (ok : Bool)
   | ignored
   | call (req : Req) (reply : Option Resp) (fin : Option Result)
@@ -575,6 +600,7 @@ def Sys.exec (sys : Sys) : Action → Sys × Report
   | .dr g k n p lo po st => let x := sys.store.deleteRes g k n p lo po st; ({ sys with store := x.1 }, .del x.2)
   | .gcU n => let x := sys.store.gcUsage n; ({ sys with store := x.1 }, .gc x.2)
   | .gcR g k n => let x := sys.store.gcRes g k n; ({ sys with store := x.1 }, .gc x.2)
+  | .xa n c => let x := sys.store.reapplyUsage n c; ({ sys with store := x.1 }, .reapplied x.2)
   | .start n =>
     match sys.thread? n with
     | some _ => (sys, .started false)
